@@ -1,8 +1,24 @@
 //! small manual probes (not part of any registered check)
 use crate::common::*;
 use std::io::Write;
-pub const KINDS: &[&str] = &["probe-h1"];
-pub fn run(_kind: &str, _ctx: &Ctx, out: &mut dyn Write) {
+pub const KINDS: &[&str] = &["probe-h1", "probe-edit"];
+pub fn run(kind: &str, _ctx: &Ctx, out: &mut dyn Write) {
+    if kind == "probe-edit" {
+        // PROBE_FILE = nnf file, PROBE_N = features, PROBE_LIT = unit clause added incrementally
+        use ddnnife::parser::intermediate_representation::ClauseApplication;
+        let file = std::env::var("PROBE_FILE").unwrap();
+        let n: u32 = std::env::var("PROBE_N").unwrap().parse().unwrap();
+        let l: i32 = std::env::var("PROBE_LIT").unwrap().parse().unwrap();
+        let lines: Vec<String> = std::fs::read_to_string(&file).unwrap().lines().map(|x| x.to_string()).collect();
+        let r = guarded(|| {
+            let mut d = ddnnife::parser::distribute_building(lines.clone(), Some(n), None);
+            let before = (d.rc(), d.execute_query(&[l]));
+            let st = d.prepare_and_apply_incremental_edit(vec![(vec![l], ClauseApplication::Add)]);
+            format!("before rc={} count[l]={} ; strategy {:?} ; after rc={} nodes={}", before.0, before.1, st as u8, d.rc(), d.nodes.len())
+        });
+        writeln!(out, "{:?}", r).unwrap();
+        return;
+    }
     crate::cnfc::register();
     let dir = std::path::Path::new("/verif/.cache/scratch");
     std::fs::create_dir_all(dir).unwrap();
